@@ -156,6 +156,13 @@ def args_of(p):
     return a
 
 
+REAL_STDERR = {
+    "tag": "fatal: tag '1.2.4' already exists\n",
+    "commit": "On branch main\nnothing to commit, working tree clean\n", "push": "error: failed to push some refs to 'origin'\nEverything up-to-date\n",
+    "status": "fatal: not a git repository (or any of the parent directories): .git\n", "add": "fatal: pathspec did not match any files\n",
+}
+
+
 def execute(p, fail=None):
     files = build(p)
     world.clear_dir(".")
@@ -377,7 +384,8 @@ def run_chunk(chunk):
                     n = seen.get(e["name"], 0)
                     seen[e["name"]] = n + 1
                     targets.append((e["name"], n))
-            for fail in targets:
+            # every fault once with a neutral message and once with what the real tool prints for the usual cause of that failure
+            for fail in targets + [t + (REAL_STDERR[t[0]],) for t in targets if t[0] in REAL_STDERR]:
                 o2, fake2, files2, after2 = execute(p, fail=fail)
                 st.evaluations += 1
                 st.transitions += 1
